@@ -1,4 +1,4 @@
-from . import dchecks, rchecks, ochecks, gchecks, echecks
+from . import dchecks, rchecks, ochecks, gchecks, echecks, schecks
 
 CHECKS = {}
 REPLAYERS = {}
@@ -7,4 +7,5 @@ CHECKS.update(rchecks.CHECKS)
 CHECKS.update(ochecks.CHECKS)
 CHECKS.update(gchecks.CHECKS)
 CHECKS.update(echecks.CHECKS)
+CHECKS.update(schecks.CHECKS)
 REPLAYERS["E"] = echecks.replay_env
